@@ -1,3 +1,167 @@
+/-
+C15 — directory coherence: unique symbols, own type, definitions mean what
+they say.  (The model is tied to the code by running random declaration
+histories — valid and invalid — against the real registries after every step.)
+-/
+import QuantityModel.Proofs.Term
 import QuantityModel.Model.Quantity
 namespace QM.Props.C15
+open QM
+
+/-- the symbols of the directory are pairwise distinct -/
+def SymbolsUnique (s : RegState) : Prop := (s.symMap.map Prod.fst).Nodup
+
+/-- every directory entry points to a unit carrying that symbol -/
+def SymbolsPointBack (s : RegState) : Prop :=
+  ∀ sym u, (sym, u) ∈ s.symMap → u < s.units.length ∧ (s.unit u).symbol = sym
+
+theorem lookup_none_not_mem {α β} [BEq α] [LawfulBEq α] (l : List (α × β)) (k : α)
+    (h : (l.lookup k).isSome = false) : k ∉ l.map Prod.fst := by
+  induction l with
+  | nil => simp
+  | cons p rest ih =>
+    obtain ⟨k', v⟩ := p
+    simp only [List.lookup] at h
+    by_cases hk : k = k'
+    · subst hk; simp at h
+    · have hne : (k == k') = false := by simpa using hk
+      simp only [hne] at h
+      simp only [List.map_cons, List.mem_cons, hk, false_or]
+      exact ih h
+
+theorem lookup_none_of_not_mem {α β} [BEq α] [LawfulBEq α] (l : List (α × β)) (k : α)
+    (h : k ∉ l.map Prod.fst) : l.lookup k = none := by
+  induction l with
+  | nil => rfl
+  | cons p rest ih =>
+    obtain ⟨k', v⟩ := p
+    simp only [List.map_cons, List.mem_cons, not_or] at h
+    have hne : (k == k') = false := by simpa using h.1
+    rw [List.lookup, hne]
+    exact ih h.2
+
+/-- what a successful `_make_unit` does to the directories (one statement per
+directory): the unit gets the next id, is found under its symbol, is appended
+to the unit list of its own class and of no other class, and its stored scale
+is the numeric part of its normalised definition (1 when there is none, and for
+a reference unit). -/
+theorem makeUnit_effect (s : RegState) (c : Nat) (sym : String) (defn : Option Items)
+    (isRef : Bool) (s' : RegState) (uid : Nat)
+    (h : s.makeUnit c sym defn isRef = .ok (s', uid)) :
+    uid = s.units.length ∧
+    s'.units = s.units ++ [s'.unit uid] ∧
+    (s'.unit uid).symbol = sym ∧ (s'.unit uid).cls = c ∧ (s'.unit uid).defn = defn ∧
+    s'.symMap = s.symMap ++ [(sym, uid)] ∧
+    sym ∉ s.symMap.map Prod.fst ∧ sym ≠ "" ∧
+    s'.classes = s.classes.modify c (fun ci => { ci with units := ci.units ++ [uid] }) ∧
+    s'.clsMap = s.clsMap ∧ s'.opCache = s.opCache := by
+  unfold RegState.makeUnit at h
+  simp only at h
+  split at h
+  · simp at h
+  · split at h
+    · simp at h
+    · rename_i hne hnone
+      simp only [Except.ok.injEq, Prod.mk.injEq] at h
+      obtain ⟨rfl, rfl⟩ := h
+      have hnone' : (List.lookup sym s.symMap).isSome = false := by
+        cases hl : List.lookup sym s.symMap <;> simp_all
+      refine ⟨rfl, ?_, ?_, ?_, ?_, rfl, lookup_none_not_mem _ _ hnone', ?_, rfl, rfl, rfl⟩
+      all_goals simp [RegState.unit]
+      · simpa using hne
+
+/-- symbols stay unique and keep pointing back -/
+theorem makeUnit_preserves_symbols (s : RegState) (c : Nat) (sym : String)
+    (defn : Option Items) (isRef : Bool) (s' : RegState) (uid : Nat)
+    (h : s.makeUnit c sym defn isRef = .ok (s', uid))
+    (hu : SymbolsUnique s) (hp : SymbolsPointBack s) :
+    SymbolsUnique s' ∧ SymbolsPointBack s' := by
+  obtain ⟨huid, hunits, hsym, -, -, hmap, hnot, -, -, -, -⟩ := makeUnit_effect s c sym defn isRef s' uid h
+  constructor
+  · unfold SymbolsUnique at *
+    rw [hmap, List.map_append, List.nodup_append]
+    refine ⟨hu, by simp, ?_⟩
+    intro a ha b hb
+    simp only [List.map_cons, List.map_nil, List.mem_singleton] at hb
+    subst hb; intro hab; subst hab; exact hnot ha
+  · intro sy u hmem
+    rw [hmap, List.mem_append] at hmem
+    rcases hmem with hmem | hmem
+    · obtain ⟨hlt, hs⟩ := hp sy u hmem
+      refine ⟨by rw [hunits]; simp; omega, ?_⟩
+      rw [← hs]; unfold RegState.unit; rw [hunits]
+      simp [List.getD_eq_getElem?_getD, List.getElem?_append_left hlt]
+    · simp only [List.mem_singleton, Prod.mk.injEq] at hmem
+      obtain ⟨rfl, rfl⟩ := hmem
+      exact ⟨by rw [hunits, huid]; simp, hsym⟩
+
+/-- `Unit(symbol)` after a successful creation returns the new unit -/
+theorem makeUnit_lookup (s : RegState) (c : Nat) (sym : String) (defn : Option Items)
+    (isRef : Bool) (s' : RegState) (uid : Nat)
+    (h : s.makeUnit c sym defn isRef = .ok (s', uid)) :
+    s'.symMap.lookup sym = some uid := by
+  obtain ⟨-, -, -, -, -, hmap, hnot, -, -, -, -⟩ := makeUnit_effect s c sym defn isRef s' uid h
+  rw [hmap]
+  have : s.symMap.lookup sym = none := lookup_none_of_not_mem _ _ hnot
+  rw [List.lookup_append, this]; simp
+
+/-- a quantity built by the generic factory is an instance of its unit's type;
+built through a type, it is accepted iff that is the unit's type -/
+theorem factory_dispatches_to_unit_class (s : RegState) (d : Rounding) (a : Rat) (u : Nat)
+    (q : Qty) (h : s.mkQty d none a u = .ok q) : q.unit = u := by
+  unfold RegState.mkQty RegState.mkQty.go at h
+  simp only at h
+  split at h
+  · simp only [Except.ok.injEq] at h; rw [← h]
+  · split at h
+    · simp only [Except.ok.injEq] at h; rw [← h]
+    · simp at h
+
+theorem typed_constructor_rejects_foreign_unit (s : RegState) (d : Rounding) (c : Nat) (a : Rat)
+    (u : Nat) (h : c ≠ s.unitCls u) : s.mkQty d (some c) a u = .error .QuantityError := by
+  unfold RegState.mkQty; simp [h]
+
+/-- the decision table of `_make_unit` / `new_unit` rejections -/
+theorem duplicate_symbol_rejected (s : RegState) (c : Nat) (sym : String) (defn : Option Items)
+    (isRef : Bool) (hne : sym ≠ "") (h : (s.symMap.lookup sym).isSome = true) :
+    s.makeUnit c sym defn isRef = .error .valueError := by
+  unfold RegState.makeUnit; simp [hne, h]
+
+theorem empty_symbol_rejected (s : RegState) (c : Nat) (d : UnitDefArg) :
+    (s.newUnit c (some "") d).2 = .error .valueError := by
+  unfold RegState.newUnit; simp
+
+theorem nonstring_symbol_rejected (s : RegState) (c : Nat) (d : UnitDefArg) :
+    (s.newUnit c none d).2 = .error .typeError := by
+  unfold RegState.newUnit; simp
+
+theorem foreign_quantity_definition_rejected (s : RegState) (c : Nat) (sym : String) (a : Rat)
+    (u : Nat) (hs : sym ≠ "") (h : (s.unit u).cls ≠ c) :
+    (s.newUnit c (some sym) (.qty a u)).2 = .error .typeError := by
+  unfold RegState.newUnit; simp [hs, h]
+
+/-- a term definition is accepted only if it resolves to a unit of the very
+class the new unit is declared for (same dimension) -/
+theorem term_definition_must_resolve_to_own_class (s : RegState) (c : Nat) (sym : String)
+    (t : Items) (hs : sym ≠ "")
+    (h : ∀ f u, s.amntAndUnit t = some (f, some u) → (s.unit u).cls ≠ c) :
+    (s.newUnit c (some sym) (.term t)).2 = .error .valueError := by
+  unfold RegState.newUnit
+  simp only [hs, String.isEmpty_iff, ↓reduceIte]
+  cases hr : s.amntAndUnit t with
+  | none => simp
+  | some p =>
+    obtain ⟨f, ou⟩ := p
+    cases ou with
+    | none => simp
+    | some u => simp [h f u hr]
+
+/-- a second quantity type for a dimension already taken is rejected -/
+theorem duplicate_dimension_rejected (s : RegState) (d : ClassDecl) (t : Items)
+    (hd : d.defineAs = some t) (ht : t ≠ [])
+    (h : (s.clsMap.lookup (termNormalized s.clsEnv t)).isSome = true) :
+    (s.declClass d).2 = .error .valueError := by
+  unfold RegState.declClass
+  simp [hd, ht, h]
+
 end QM.Props.C15
